@@ -34,6 +34,7 @@ class Abstractor:
         self.cache = {}  # id -> (term kept alive, image)
         self.ufs = {}
         self.len_terms = {}
+        self.extra = {}  # valid facts about translated terms (unit laws of concatenation)
         self.literals = {}
         self._build_datatype()
 
@@ -122,6 +123,31 @@ class Abstractor:
                 c = z3.Const("lit!%d" % len(self.literals), self.sort(t.sort()))
                 self.literals[s] = c
             return c
+        if kind == z3.Z3_OP_SEQ_CONCAT:
+            # concatenation is associative with the empty sequence as unit: translated in a canonical shape
+            # (leaves in order, empties dropped, nested to the right), so that (a ++ b) ++ c and a ++ (b ++ c) coincide
+            leaves, stack = [], list(reversed(t.children()))
+            while stack:
+                x = stack.pop()
+                if z3.is_app(x) and x.decl().kind() == z3.Z3_OP_SEQ_CONCAT:
+                    stack.extend(reversed(x.children()))
+                elif z3.is_app(x) and x.decl().kind() == z3.Z3_OP_SEQ_EMPTY:
+                    continue
+                elif z3.is_string_value(x) and x.as_string() == "":
+                    continue
+                else:
+                    leaves.append(self.tr(x))
+            rng = self.sort(t.sort())
+            if not leaves:
+                return self._const("empty!" + t.sort().sexpr().replace(" ", "_"), rng)
+            acc = leaves[-1]
+            empty = self._const("empty!" + t.sort().sexpr().replace(" ", "_"), rng)
+            for lf in reversed(leaves[:-1]):
+                new = self._uf("seq.++", [lf, acc], rng)(lf, acc)
+                # unit laws for operands that only turn out to be empty by equational reasoning
+                self.extra[new.get_id()] = z3.And(z3.Implies(acc == empty, new == lf), z3.Implies(lf == empty, new == acc))
+                acc = new
+            return acc
         ch = [self.tr(c) for c in t.children()]
         rng = self.sort(t.sort())
         if kind == z3.Z3_OP_DT_CONSTRUCTOR and t.sort() == self.V:
@@ -163,6 +189,7 @@ class Abstractor:
     def run(self, forms):
         out = [self.tr(f) for f in forms]
         out += [ln >= 0 for ln in self.len_terms.values()]
+        out += list(self.extra.values())
         lits = list(self.literals.values())
         if len(lits) > 1:
             out.append(z3.Distinct(*lits))
